@@ -245,6 +245,14 @@ Theorem C14_wtls_constructors_explicit :
 Proof. exact inits_explicit. Qed.
 Print Assumptions C14_wtls_constructors_explicit.
 
+(* the profile chi-squared has period pi: the two ends alpha0 -+ pi/2 of the search interval have
+   the same value, so the interval brackets a minimum only if chi-squared(alpha0) lies below it --
+   line_fit_wtls now checks this and re-centres the interval (fixed finding C14-wtls-bracket-end;
+   the minimiser itself remains an oracle of the model) *)
+Theorem C14_wtls_chisq_period : forall (D : list pt5) (a : R), chiS D (a + PI) = chiS D a.
+Proof. exact chiS_period. Qed.
+Print Assumptions C14_wtls_chisq_period.
+
 (* the statement over the reals (envelope argument), and the residual variance *)
 Theorem C14_wtls_envelope :
   forall (D : list pt5) (a : R),
